@@ -39,6 +39,18 @@ CLAIMED = {
    text="get_num_cells/get_num_children with BOTH resolutions symbolic in -1..30: closed forms, num_cells(a)*num_children(a,r)==num_cells(r), 12/5/4 per-level product; len(cell_to_children) and len(uncompact) equal get_num_children for a symbolic cell at every resolution (fan-out <= 3); world expansion is duplicate-free, complete and counted by get_num_cells (r<=3); cell_area strictly decreasing, positive, and cell_area(r)*n within 1 ulp of the sphere area for symbolic r, bit-precise IEEE-754 (z3 FP).",
    ref="DESIGN.md §4 C20",
    note="Fan-out of the length clause bounded to 3 levels; expansion of the world cell enumerated for r<=3 and otherwise tied to the count through C06 (children distinct+complete). int->float conversion and division assumed IEEE RNE (CPython)."),
+ "C15": dict(
+   text="The real AuthalicProjection.forward/inverse run on exact reals with sin/cos of the input replaced by symbols s,c on the unit circle (rational parametrisation for the accuracy queries), so the returned value is phi + polynomial(s,c); z3 nlsat decides over the whole circle: exact oddness, fixed points 0 and +-90, derivative in [0.5,1.5] via dual numbers (strictly increasing), |forward - closed-form| <= 9e-11 and distances <= 4e-13 of forward/inverse to a 12-term reference series computed from the closed-form WGS84 authalic latitude with 60-digit mpmath (independent of the library's tables), from which the 1e-12 round trip follows arithmetically.",
+   ref="DESIGN.md §4 C15",
+   note="Real-arithmetic semantics: IEEE rounding of ~30 operations and libm's sin/cos are covered by a stated budget (1e-14), not modelled; every counterexample is a candidate that is replayed in floats against the closed form before being reported."),
+ "C16": dict(
+   text="The schedule is symbolic: every shared mutable container under a5.* is discovered and hooked, line events of the running call are the preemption points, a Boolean per point says 'other threads ran here' and reads of a shared numeric cell written earlier by the call return ite(preempted-in-between, arbitrary fresh value, own value); z3 decides result(schedule, interfering writes) == sequential result. Unit level: all vec3/vec2/quat functions, coordinate transforms, PentagonShape with fully symbolic inputs; SphericalPolygonShape/PolyhedralProjection on concrete input sets x symbolic schedule; API level: interference-window search on 42 concrete calls. Violations are replayed with a deterministic scheduler that runs a real interfering call at the reported line event. Found the shared scratch-vector defect (fixed in /repo 61b8696).",
+   ref="DESIGN.md §4 C16",
+   note="Preemption at source-line granularity; interference over-approximated by arbitrary writes to shared numeric cells; object-valued cache slots rely on C17 (key-determined content); libm and symbolic products are uninterpreted functions; rebinding of module globals is outside."),
+ "C17": dict(
+   text="Histories are handled by making the pre-state symbolic: (i) every shared numeric cell starts as an arbitrary residue and two runs with independent residues must agree (unit targets of C16); (ii) cache keys: two-call histories with independent symbolic (index, reflected, squashed, origin) on get_face_triangle/get_spherical_triangle with compute functions replaced by argument tokens and the cache list by a symbolic store - the second call must return its own key's value; (iii) f(x) then g(y) for the exported hierarchy functions on independent symbolic cells versus g(y) on the restored cold state, all discovered module-level containers snapshotted; (iv) aliasing: arguments untouched, results fresh, mutating a result does not affect the next call, on every symbolic path; (v) concrete warm-vs-cold API pairs (replay in a fresh process).",
+   ref="DESIGN.md §4 C17",
+   note="Two-call histories (insert-only key-determined caches need two keys to collide); caches keyed by rendered strings are outside (str of a symbolic int is not modelled); the triangle-constants cache and the float API pairs are concrete differential runs, stated as such."),
 }
 NA = {}
 for p in props:
